@@ -90,6 +90,26 @@ func runC15(c *Ctx) {
 				}
 				c.Check(kept, r1, p.FuncKey(f)+":kept", p.InstrPos(call), "a key=value pair is stored", "the key/value pair of an environment entry is not stored when the split has two parts")
 			}
+			if ok2 && o.Name() == "Cut" {
+				guarded := true
+				AllInstrs(f, func(x ssa.Instruction) {
+					if _, isMu := x.(*ssa.MapUpdate); !isMu {
+						return
+					}
+					g := false
+					for _, gd := range GuardsOf(x) {
+						if v, val := gd.BoolVal(); val {
+							if ex, isEx := v.(*ssa.Extract); isEx && ex.Tuple == ssa.Value(call) && ex.Index == 2 {
+								g = true
+							}
+						}
+					}
+					if !g {
+						guarded = false
+					}
+				})
+				c.Check(guarded, r1, p.FuncKey(f)+":kept", p.InstrPos(call), "only entries with a separator become key/value pairs", "entries without '=' are stored as pairs with an empty value: NAME (pass-through) and NAME= (explicitly empty) can no longer be told apart when the map is written back")
+			}
 			// key and value are stored exactly as split (byte for byte)
 			if ok2 {
 				exact := true
@@ -126,6 +146,56 @@ func runC15(c *Ctx) {
 	}
 	if n1 == 0 {
 		c.Bad(r1, "none", "", "the loader does not split environment entries into key and value (environment lists cannot be merged by key)")
+	}
+	// the way back: every pair of the merged map is written as key=value, whatever the value (an explicitly empty
+	// value keeps its '='; NAME and NAME= are different entries)
+	nJoin := 0
+	for _, f := range p.FuncsOfPkg("loader") {
+		AllInstrs(f, func(in ssa.Instruction) {
+			cc, isApp := IsBuiltinCall(in, "append")
+			if !isApp || len(cc.Args) != 2 {
+				return
+			}
+			if nt, ok := cc.Args[0].Type().(*types.Named); !ok || nt != envT {
+				return
+			}
+			// appended inside a loop over a map
+			lp := InnermostLoopOf(in)
+			if lp == nil {
+				return
+			}
+			overMap := false
+			for b := range lp.Blocks {
+				for _, x := range b.Instrs {
+					if nx, isNext := x.(*ssa.Next); isNext && !nx.IsString {
+						overMap = true
+					}
+				}
+			}
+			if !overMap {
+				return
+			}
+			nJoin++
+			c.Touch(f)
+			elems := variadicValues(cc.Args[1])
+			okJ := len(elems) == 1 && elems[0] != nil
+			if okJ {
+				switch y := stripConv(elems[0]).(type) {
+				case *ssa.Call:
+					o := CalleeObj(&y.Call)
+					fs, _ := ConstString(y.Call.Args[0])
+					okJ = o != nil && o.Pkg() != nil && o.Pkg().Path() == "fmt" && o.Name() == "Sprintf" && (fs == "%s=%s" || fs == "%v=%v")
+				case *ssa.BinOp:
+					okJ = strings.Contains(stringExprDesc(y), `"="`)
+				default:
+					okJ = false
+				}
+			}
+			c.Check(okJ, r1, p.FuncKey(f)+":join", p.InstrPos(in), "every pair is written as key=value", "a merged environment pair is not always written back as key=value (for instance the '=' is omitted for an empty value): an override that blanks a variable with NAME= becomes the bare NAME and the inherited value shows through; empty entries the later file does not mention are not preserved")
+		})
+	}
+	if nJoin == 0 {
+		c.Bad(r1, "join:none", "", "no function writes the merged key/value map back into an Environment")
 	}
 
 	// ------------------------------------------------------------------ (2)
@@ -278,7 +348,7 @@ func runC15(c *Ctx) {
 		c.Check(noDelete, r3, p.FuncKey(f)+":no-delete", FirstPos(p, f), "nothing is deleted", "the process merge deletes entries: a process defined only in the earlier file is lost")
 		retOK := true
 		for _, ret := range returnsOf(f) {
-			if len(ret.Results) == 2 && IsNilConst(ret.Results[1]) && ret.Results[0] != ssa.Value(base) {
+			if len(ret.Results) == 2 && IsNilConst(RetVals(ret)[1]) && RetVals(ret)[0] != ssa.Value(base) {
 				retOK = false
 			}
 		}
@@ -416,7 +486,7 @@ func runC15(c *Ctx) {
 						if x == ssa.Instruction(insProj) {
 							good = false
 						}
-						if ret, isRet := x.(*ssa.Return); isRet && IsNilConst(ret.Results[0]) {
+						if ret, isRet := x.(*ssa.Return); isRet && IsNilConst(RetVals(ret)[0]) {
 							good = false
 						}
 					}
